@@ -385,6 +385,10 @@ def case(ctx, i, rng):
         for n in sorted(extra):
             base = {m: val_for(a) for m, (a, d) in exp.items() if d == "<required>"}
             oc = call(cls, **{**base, n: 9})
+            if oc.accepted and callable(getattr(oc.value, "run", None)):
+                # **kwargs kept in an attribute: the call that receives them happens when the object is used
+                oc = call(oc.value.run)
+                ctx.count("mon.extra_parameter_confirmed_by_using_the_object")
             if not oc.accepted and oc.exc_type == "TypeError":
                 what = "hard-coded-parameter-offered" if n in hard or "multiple values" in (oc.exc_text or "") else "offered-parameter-not-accepted-by-the-code"
                 ctx.violation("resolver", f"{what}/{_where(n)}/{'diamond' if leaf == 'Diamond' else 'chain'}", dict(w, parameter=n, error=oc.exc_text, offered=sorted(params), expected=sorted(exp), patterns=pat))
